@@ -43,8 +43,32 @@ pub enum Lit {
     Mysterious,
     Null,
     Bool(bool),
-    Num(f64),
+    Num(#[serde(with = "f64_json")] f64),
     Str(String),
+}
+
+/// JSON has no infinities / NaN: write them as strings
+pub mod f64_json {
+    use serde::{Deserialize, Deserializer, Serializer};
+    pub fn serialize<S: Serializer>(v: &f64, s: S) -> Result<S::Ok, S::Error> {
+        if v.is_finite() {
+            s.serialize_f64(*v)
+        } else {
+            s.serialize_str(&format!("{}", v))
+        }
+    }
+    pub fn deserialize<'de, D: Deserializer<'de>>(d: D) -> Result<f64, D::Error> {
+        #[derive(Deserialize)]
+        #[serde(untagged)]
+        enum N {
+            F(f64),
+            S(String),
+        }
+        match N::deserialize(d)? {
+            N::F(f) => Ok(f),
+            N::S(s) => s.parse::<f64>().map_err(serde::de::Error::custom),
+        }
+    }
 }
 
 impl PartialEq for Lit {
